@@ -243,6 +243,18 @@ def run_case(case, tier):
                     ctx.check_concrete(ok, 'inputtasks:witness',
                                        {'names': cf, 'query': cq, 'dn': True, 'got': g2[0], 'ret': str(g2[1]),
                                         'via': 'InputTasks'})
+                    # an argument of `run` named like the query receives exactly that input (or the lookup fails)
+                    import keyword
+                    import types
+                    if cq.isidentifier() and not keyword.iskeyword(cq):
+                        obj = types.SimpleNamespace(run=eval(f'lambda {cq}: None'), input_tasks=it, parameters={})
+                        try:
+                            g3 = ('ret', T.Task._get_run_arguments(obj)[0])
+                        except KeyError:
+                            g3 = ('err', None)
+                        ctx.check_concrete(g3 == want, 'inputtasks:witness',
+                                           {'names': cf, 'query': cq, 'dn': True, 'got': g3[0], 'ret': str(g3[1]),
+                                            'via': 'run-argument'})
 
     ctx = explore.explore(harness, max_paths=4000, concolic=explore.concolic_rerun,
                           decide_timeout_ms=20000 if tier == 'quick' else 60000)
@@ -277,6 +289,14 @@ def real(order):
         it = InputTasks()
         for n in order: it[n] = n
         try: return ('ret', it.get(q))
+        except KeyError: return ('err', None)
+    if spec['via'] == 'run-argument':
+        import types
+        from taskchain.task import Task
+        it = InputTasks()
+        for n in order: it[n] = n
+        obj = types.SimpleNamespace(run=eval(f'lambda {q}: None'), input_tasks=it, parameters={})
+        try: return ('ret', Task._get_run_arguments(obj)[0])
         except KeyError: return ('err', None)
     if spec['via'].startswith('Chain'):
         from taskchain.chain import Chain
